@@ -174,6 +174,26 @@ def check_states(case, ctx: Ctx):
     times = [r.evaluation_time for r in res]
     if times != sorted(times) or abs(times[0]) > 1e-12 or abs(times[-1] - 1) > 1e-9:
         ctx.fail(C, "evaluation_times", f"{times[:3]}...{times[-2:]}")
+    # the final state the results hand out is the last state of the run (the one the V2 backend
+    # stores at t=1), up to the global phase that get_final_state() removes
+    if final is not None and hasattr(res, "get_final_state"):
+        try:
+            fs = res.get_final_state()
+        except Exception:  # noqa: BLE001 - (e.g. results that only hold samples)
+            fs = None
+        if fs is not None and fs.shape == final.shape:
+            a_, b_ = fs.full(), final.full()
+            if final.isket:
+                infid = 1 - abs(np.vdot(a_.ravel(), b_.ravel())) ** 2 / max(
+                    np.vdot(a_.ravel(), a_.ravel()).real * np.vdot(b_.ravel(), b_.ravel()).real, 1e-300)
+            else:
+                infid = float(np.max(np.abs(a_ - b_)))
+            if infid > 1e-9:
+                ctx.fail(C, "get_final_state_is_not_the_last_state",
+                         f"T={T} ns: get_final_state() differs from the last stored state (1-|<a|b>|^2 or max "
+                         f"difference = {infid:.3e}); it equals the previous one: "
+                         f"{len(res.states) >= 2 and np.allclose(np.abs(fs.full()), np.abs(res.states[-2].full()), atol=1e-9)}",
+                         cont=True)
     if final is not None:
         a = final.full() if not final.isket else final.full() @ final.full().conj().T
         b = init.full() if not init.isket else init.full() @ init.full().conj().T
@@ -686,6 +706,55 @@ def check_leak(case, ctx: Ctx):
         ctx.fail(C, "v2_eigenstates:with_leakage", f"{st_.eigenstates}")
 
 
+@st.composite
+def devnoise_cases(draw):
+    return dict(eps=draw(st.sampled_from([0.0, 0.1, 0.3])), epsp=draw(st.sampled_from([0.0, 0.2, 0.5])),
+                excited=draw(st.booleans()), via=draw(st.sampled_from(["device", "device", "config"])),
+                shots=2000, seed=draw(st.integers(0, 2**31 - 1)))
+
+
+def check_devnoise(case, ctx: Ctx):
+    """Detection errors configured through the device's default noise model
+    (prefer_device_noise_model=True) flip bits at those rates, as they do when the same noise
+    model is given in the configuration."""
+    import dataclasses
+
+    from pulser import Pulse, Register, Sequence
+    from pulser.backend import BitStrings
+    from pulser.devices import AnalogDevice
+    from pulser.noise_model import NoiseModel
+    from pulser_simulation import QutipBackendV2, QutipConfig
+
+    C = "C11.spam"
+    eps, epsp = case["eps"], case["epsp"]
+    if not (eps or epsp):
+        return
+    nm = NoiseModel(p_false_pos=eps, p_false_neg=epsp)
+    dev = dataclasses.replace(AnalogDevice, default_noise_model=nm)
+    seq = Sequence(Register({"q0": (0.0, 0.0)}), dev)
+    seq.declare_channel("ch", "rydberg_global")
+    if case["excited"]:
+        seq.add(Pulse.ConstantPulse(1000, math.pi, 0.0, 0.0), "ch")  # pi pulse: the atom ends in r
+    else:
+        seq.delay(100, "ch")
+    kw = dict(prefer_device_noise_model=True) if case["via"] == "device" else dict(noise_model=nm)
+    np.random.seed(case["seed"] % (2**32))
+    res = ctx.must(lambda: QutipBackendV2(seq, config=QutipConfig(
+        observables=[BitStrings(num_shots=case["shots"])], **kw)).run(), C, "V2 run")
+    counts = dict(res.bitstrings[-1])
+    n1 = sum(v for k, v in counts.items() if str(k) == "1")
+    N = sum(counts.values())
+    p1 = (1 - epsp) if case["excited"] else eps  # a pi pulse of 1000 ns: P(r) = 1 to 1e-6
+    sig = math.sqrt(max(p1 * (1 - p1), 1e-4) / N)
+    ctx.nontrivial(True)
+    ctx.label(f"via={case['via']}")
+    if abs(n1 / N - p1) > 7 * sig + 2e-3:
+        ctx.fail(C, f"v2:detection_errors_of_{case['via']}_noise_model_not_applied" if abs(n1 / N - (1.0 if case["excited"] else 0.0)) < 1e-9
+                 else f"v2:rate_of_ones:{case['via']}",
+                 f"p_false_pos={eps}, p_false_neg={epsp}, atom in {'r' if case['excited'] else 'g'}: {n1}/{N} ones, "
+                 f"expected rate {p1} (noise model given through the {case['via']})", cont=True)
+
+
 def enum_durations(tier):
     step = 1
     for lo in range(4, 3001, 250):
@@ -743,6 +812,10 @@ CLAUSES = [
            budget={"quick": (16, 8), "thorough": (16, 120)},
            doc="V2 backend with output modulation: relative evaluation times refer to the duration "
                "including the fall time; states agree with the legacy emulator at those times"),
+    Clause("device_noise_model", check_devnoise, gen=lambda t: devnoise_cases(),
+           budget={"quick": (4, 6), "thorough": (16, 30)},
+           doc="detection errors given through the device's default noise model (prefer_device_noise_model) "
+               "or through the configuration: bits flip at the configured rates on the V2 backend"),
     Clause("leakage", check_leak, gen=lambda t: leak_cases(),
            budget={"quick": (4, 6), "thorough": (16, 40)},
            doc="noise model with a leakage state: a leaked atom reads 0 (legacy), and the V2 backend gives the "
